@@ -109,6 +109,7 @@ inline std::uint64_t splitmix(std::uint64_t& s) {
 struct Ctx {
   std::uint64_t seed = 0;
   std::uint64_t state = 0;
+  int vclass = -1;            // >=0: every number drawn in this op comes from that one special class (uniform operands)
   long forced[2] = {-1, -1};  // explicit selectors (enumerator / literal index) for exhaustive sweeps
   int forced_used = 0;
   std::ostream* os = nullptr;  // stream for this execution (scratch or a slot)
@@ -142,11 +143,13 @@ struct Ctx {
 };
 
 // ---------------------------------------------------------------------------------- finite values
+constexpr int kValueClasses = 40;
 template <class T>
 inline T finite_value(Ctx& c) {
   using L = std::numeric_limits<T>;
   std::uint64_t r = c.next();
-  switch (r % 24) {
+  std::uint64_t k = c.vclass >= 0 ? static_cast<std::uint64_t>(c.vclass) % kValueClasses : r % (kValueClasses + 24);
+  switch (k) {
     case 0: return static_cast<T>(0);
     case 1: return -static_cast<T>(0);
     case 2: return static_cast<T>(1);
@@ -156,18 +159,42 @@ inline T finite_value(Ctx& c) {
     case 6: return L::lowest();
     case 7: return L::min();
     case 8: return L::epsilon();
-    case 9: return static_cast<T>(static_cast<int>((r >> 8) % 2001) - 1000);
-    case 10: return static_cast<T>(std::ldexp(static_cast<T>(1), static_cast<int>((r >> 8) % 200) - 100));
-    case 11: return -static_cast<T>(std::ldexp(static_cast<T>(1.5), static_cast<int>((r >> 8) % 60) - 30));
-    case 12: {  // any finite bit pattern of the type's magnitude range
+    case 9: return static_cast<T>(0.5);          // Poisson ratio at which 1 - 2 nu vanishes
+    case 10: return static_cast<T>(-0.5);
+    case 11: return static_cast<T>(2);
+    case 12: return static_cast<T>(0.25);
+    case 13: return static_cast<T>(1) / static_cast<T>(3);
+    case 14: return static_cast<T>(273.15);      // temperature offsets
+    case 15: return static_cast<T>(-273.15);
+    case 16: return static_cast<T>(459.67);
+    case 17: return static_cast<T>(-459.67);
+    case 18: return static_cast<T>(32);
+    case 19: return static_cast<T>(3.14159265358979323846264338327950288L);
+    case 20: return static_cast<T>(180);
+    case 21: return static_cast<T>(90);
+    case 22: return static_cast<T>(1000);
+    case 23: return static_cast<T>(0.001);
+    case 24: return std::sqrt(L::max());         // squares stay finite, sums of squares overflow
+    case 25: return std::sqrt(L::min());         // squares underflow
+    case 26: return static_cast<T>(10000);       // PhQ::Print branch edges
+    case 27: return static_cast<T>(0.1);
+    case 28: return static_cast<T>(0.01);
+    case 29: return static_cast<T>(100);
+    case 30: return static_cast<T>(10);
+    case 31: return static_cast<T>(-2);
+    case 32: return static_cast<T>(1) - L::epsilon();
+    case 33: return static_cast<T>(1) + L::epsilon();
+    case 34: return static_cast<T>(static_cast<int>((r >> 8) % 2001) - 1000);
+    case 35: return static_cast<T>(std::ldexp(static_cast<T>(1), static_cast<int>((r >> 8) % 200) - 100));
+    case 36: return -static_cast<T>(std::ldexp(static_cast<T>(1.5), static_cast<int>((r >> 8) % 60) - 30));
+    case 37: {  // any finite magnitude of the type
       int e = static_cast<int>((r >> 8) % static_cast<unsigned>(L::max_exponent - L::min_exponent)) + L::min_exponent;
       T m = static_cast<T>(1) + static_cast<T>((r >> 24) & 0xFFFFFF) / static_cast<T>(0x1000000);
       T v = std::ldexp(m, e - 1);
       return (r >> 60) & 1 ? -v : v;
     }
-    case 13: return static_cast<T>(0.001) * static_cast<T>(1 + (r >> 8) % 999);   // print branch edges
-    case 14: return static_cast<T>(std::pow(static_cast<T>(10), static_cast<int>((r >> 8) % 9) - 4));
-    case 15: return static_cast<T>(std::pow(static_cast<T>(10), static_cast<int>((r >> 8) % 9) - 4)) - L::epsilon();
+    case 38: return static_cast<T>(0.001) * static_cast<T>(1 + (r >> 8) % 999);
+    case 39: return static_cast<T>(std::pow(static_cast<T>(10), static_cast<int>((r >> 8) % 9) - 4)) - L::epsilon();
     default: {
       T u = static_cast<T>((r >> 11) & 0xFFFFFFFFFFULL) / static_cast<T>(0xFFFFFFFFFFULL);  // [0,1]
       T scale = static_cast<T>(std::pow(static_cast<T>(10), static_cast<int>((r >> 4) % 7) - 2));
